@@ -297,7 +297,97 @@ def loopback_case(res, rng, sizes, pacing, sndbuf, case_id, bound=120.0):
                     case, len(want), (len(received), results))
 
 
+def close_after_send_case(res, rng, size, bound=40.0):
+    """The library's PASSIVE transport (`TcpServerConnection`, its own accepted socket with whatever options it sets): a message larger than
+    the peer's receive buffer, a peer that reads slowly and pauses when the send is reported; `disable()` right after `send_data` returned
+    True; the peer then reads to EOF.  Every byte of the send reported successful has to arrive (close must not discard the unsent queue)."""
+    s = socket.socket()
+    s.bind(("127.0.0.1", 0))
+    port = s.getsockname()[1]
+    s.close()
+    settings = secsgem.hsms.HsmsSettings(address="127.0.0.1", port=port, connect_mode=secsgem.hsms.HsmsConnectMode.PASSIVE)
+    conn = settings.create_connection()
+    connected = threading.Event()
+    conn.on_connected.register(lambda _: connected.set())
+    conn.enable()
+    case = {"kind": "close-after-send", "size": size}
+    peer = socket.socket()
+    peer.setsockopt(socket.SOL_SOCKET, socket.SO_RCVBUF, 64 * 1024)
+    for _ in range(60):
+        try:
+            peer.connect(("127.0.0.1", port))
+            break
+        except OSError:
+            time.sleep(0.05)
+    else:
+        res.violate("loopback-listen", "passive transport does not accept a connection within 3 s of enable()", case)
+        return
+    if not connected.wait(5):
+        res.violate("loopback-listen", "passive transport did not report the connection within 5 s", case)
+        return
+    payload = rng.bytes(size)
+    received = bytearray()
+    reported = threading.Event()
+    closed_locally = threading.Event()
+    reader_done = threading.Event()
+    err = []
+
+    def reader():
+        peer.settimeout(15)
+        try:
+            while len(received) < size - 768 * 1024:       # drains quickly; the rest is left to the socket buffers
+                d = peer.recv(256 * 1024)
+                if not d:
+                    break
+                received.extend(d)
+            reported.wait(4)                                # not reading: what is not yet on the wire stays in the endpoint's send queue
+            while not reported.is_set():                    # (should the buffers be too small for the rest: read on slowly, no deadlock)
+                d = peer.recv(8 * 1024)
+                if not d:
+                    break
+                received.extend(d)
+                time.sleep(0.01)
+            closed_locally.wait(20)                        # busy for a moment: the endpoint closes meanwhile
+            time.sleep(0.2)
+            while True:
+                d = peer.recv(256 * 1024)
+                if not d:
+                    break
+                received.extend(d)
+        except OSError as exc:
+            err.append(repr(exc))
+        reader_done.set()
+    threading.Thread(target=reader, daemon=True).start()
+    result = []
+    finished = threading.Event()
+
+    def sender():
+        result.append(conn.send_data(payload))
+        reported.set()
+        conn.disable()
+        closed_locally.set()
+        finished.set()
+    threading.Thread(target=sender, daemon=True).start()
+    if not finished.wait(bound):
+        reported.set()
+        closed_locally.set()
+        res.violate("loopback-send-hang", f"send_data()/disable() did not return within {bound:.0f} s although the peer reads", case, None, result)
+        return
+    reader_done.wait(20)
+    peer.close()
+    res.count(("close-after-send", size), sample={"op": "passive transport: send, disable() at once, slow peer reads to EOF", "size": size,
+                                                  "send_data": result, "peer_read": len(received)})
+    res.bump("close_after_send", f"send_data={result} complete={bytes(received[:size]) == payload}")
+    if result == [True] and bytes(received[:size]) != payload:
+        good = 0
+        while good < min(len(received), size) and received[good] == payload[good]:
+            good += 1
+        res.violate("close-discards-accepted-bytes", "send_data returned True, the endpoint was disabled right afterwards: the peer did not get all "
+                    "bytes of that send", case, size, {"peer_read": len(received), "correct_prefix": good, "reader_error": err})
+
+
 def loopback_part(res, rng, big):
+    close_after_send_case(res, rng, (3 if big else 2) * 1024 * 1024 + 5)
     cid = 0
     if big:
         plans = []
